@@ -124,7 +124,7 @@ func ruleC02_rest(c *Ctx) {
 	}
 
 	// ---- C02.3 every delivered call consumed at least one byte ----
-	R.Rule("C02.3", "every delivered call consumed at least one input byte: per opcode key, a delivery outside a repetition follows the opcode byte; a delivery inside a repetition is preceded in the same repetition by at least one operand read that consumed bytes", 400)
+	R.Rule("C02.3", "every delivered call consumed at least one input byte and all of its operands: per opcode key, a delivery outside a repetition follows the opcode byte; a delivery inside a repetition is preceded in the same repetition by at least one operand read that consumed bytes; and every delivery is guarded by the success of every operand read of its operation (an operation cut short by the end of the input delivers nothing)", 400)
 	for _, drawing := range []bool{false, true} {
 		fn := pickFn(drawing, sty, drw)
 		for k, s := range c.decSummaries(drawing) {
@@ -134,17 +134,20 @@ func ruleC02_rest(c *Ctx) {
 			construct := fmt.Sprintf("decode.%s#opcode=0x%02x:delivery", fn.Name(), k)
 			ok := true
 			detail := ""
-			if s.HasLoop {
-				if len(s.Operands) == 0 {
-					ok, detail = false, "a repeated operation without operands"
+			if s.HasLoop && len(s.Operands) == 0 {
+				ok, detail = false, "a repeated operation without operands"
+			}
+			// the delivery is guarded by the success (n != 0) of every operand read of the operation (of the repetition):
+			// an operation cut short by the end of the input delivers nothing - not a call with zeros in place of the
+			// operands that could not be read
+			for _, o := range s.Operands {
+				if o.Ev == nil || o.Ev.Result == nil || len(o.Ev.Result.Args) < 2 {
+					continue
 				}
-				// the delivery is guarded by the success (n != 0) of every operand read of the repetition
-				for _, o := range s.Operands {
-					n := o.Ev.Result.Args[1]
-					nz := sym.Not(sym.Bin(tokEQL, n, sym.Int(0), nil))
-					if !impliesLit([]*sym.Term{s.Deliver.Guard}, nz) && !guardMentionsSuccess(s.Deliver.Guard, n) {
-						ok, detail = false, "delivery does not depend on the read of "+o.Kind+" having consumed bytes"
-					}
+				n := o.Ev.Result.Args[1]
+				nz := sym.Not(sym.Bin(tokEQL, n, sym.Int(0), nil))
+				if !impliesLit([]*sym.Term{s.Deliver.Guard}, nz) && !guardMentionsSuccess(s.Deliver.Guard, n) {
+					ok, detail = false, "delivery does not depend on the read of "+o.Kind+" having consumed bytes"
 				}
 			}
 			R.Check(ok, construct, c.FPos(fn), "at least one byte consumed per delivered call", detail)
